@@ -350,6 +350,8 @@ func (r *LightRenderer) GetChar() Event {
 		// Second chance
 		if ev.Type == Invalid {
 			if r.buffer, err = r.getBytes(); err != nil {
+				// The buffer is gone; nothing to consume
+				sz = 0
 				return Event{Fatal, 0, nil}
 			}
 			ev = r.escSequence(&sz)
